@@ -1,3 +1,4 @@
+import JV.Model.BigFloat
 import JV.Drv.Common
 import JV.Spec.Cbor
 import JV.Spec.BinFormats
@@ -79,6 +80,30 @@ def binaryLine : List String → String
       | .ok v _ => "ok " ++ " ".intercalate (bvTokens v)
       | .illformed => "ill"
       | .unjudged => "unjudged"
+  | ["half", h] =>
+    -- bin half <4 hex digits>  →  the double the binary16 pattern denotes (three library routes must agree with it)
+    (match Wire.bytesOfHexChars h.toList with
+     | some [hi, lo] =>
+       let b := hi * 256 + lo
+       if f16IsNaN b then "ok nan nan nan"
+       else
+         let d := "d" ++ hex16 (f16ToF64 b) 16
+         "ok " ++ d ++ " " ++ d ++ " " ++ d
+     | _ => "bad-op")
+  | ["mbf", x] =>
+    -- bin mbf x<text of a bigfloat-tagged string>  →  the bytes encode_cbor writes for it | the text decode_cbor renders for those bytes
+    (match (match x.toList with | 'x' :: cs => Wire.bytesOfHexChars cs | _ => none) with
+     | none => "bad-op"
+     | some s => match Model.BigFloat.encodeText s, Model.BigFloat.parse s with
+       | some b, some (m, e) => "ok x" ++ Wire.hexOfBytes b ++ " | ok s" ++ Wire.hexOfBytes (Model.BigFloat.render m e) ++ "@bigfloat"
+       | _, _ => "err")
+  | ["mbfr", x] =>
+    -- bin mbfr x<cbor bytes of a tag-5 item>  →  the text decode_cbor renders for it
+    (match (match x.toList with | 'x' :: cs => Wire.bytesOfHexChars cs | _ => none) with
+     | none => "bad-op"
+     | some s => match Model.BigFloat.decodeBigfloat s with
+       | some ((m, e), []) => "ok s" ++ Wire.hexOfBytes (Model.BigFloat.render m e)
+       | _ => "err")
   | "menc" :: "cbor" :: toks =>
     match cvOfTokens toks with
     | some (v, []) => "ok x" ++ Wire.hexOfBytes (Model.Cbor.encode v)
